@@ -1,13 +1,19 @@
-"""unit engine2: the CONTAINER implementations of src/model/data.rs (Trame, Component, DynOption<T>, Array<T>, to_vec, and Option<T> which
-Array::read uses) verified from their real bodies against the engine contract that every other unit ASSUMES through prelude/model.rs.
+"""unit engine2: EVERY `impl Message` of src/model/data.rs -- the containers Trame, Component, DynOption<T>, Array<T> (+ to_vec, DynOption::new,
+Array::new / from_trame / inner / as_ref) and, once more, the leaves u8, U16, U32, Vec<u8>, Check<T>, Option<T> -- verified from the real bodies
+against the engine contract that every other unit ASSUMES through prelude/model.rs (clauses copied verbatim, copy checked on every assembly).
 
-The real trait is object-safe (`&mut dyn Write` / `&mut dyn Read`); this unit keeps it that way (prelude/engine2_model.rs) because inside the
-engine the stream is handed on without any unsizing coercion.  Declared rewrites (all logged in the inventory):
+The real trait is object-safe (`&mut dyn Write` / `&mut dyn Read`, elements are `Box<dyn Message>`); this unit keeps it that way
+(prelude/engine2_model.rs): Trame is the native Vec<Box<dyn Message>>, calls on elements are dynamic dispatch.  Declared rewrites (logged):
   Rdyn   `&mut dyn Read` / `&mut dyn Write` parameters are spelled `&mut dyn DynRead` / `&mut dyn DynWrite` (base.rs' Read/Write are Sized-bound)
-  Rco    the two real unsizing coercions `&mut Cursor<Vec<u8>> -> &mut dyn ..` are made explicit: dyn_reader(..) / dyn_writer(..)
+  Rco    the unsizing coercions Verus cannot follow are made explicit through trusted identity helpers: `&mut Cursor<Vec<u8>> -> &mut dyn ..`
+         (Component::read sub-stream: dyn_reader, to_vec: dyn_writer) and `Box<T> -> Box<dyn Message>` for generic T (Array::read: box_dyn)
   Rit    `for (name, value) in self.iter() {` / `self.into_iter()` over the IndexMap and `for v in self` over `&mut Vec` become index `while`
-         loops (get_index / get_index_mut / `&mut self[i]`), increment first, loop BODY verbatim
-  Rfn    `Box<dyn Fn..>` fields: `Box::new(f)` -> `BoxedFilter::new(f)` / `BoxedFactory::new(f)`, `(self.f)(x)` -> `self.f.call(x)`
+         loops (get_index / get_index_mut / `&mut self[i]`), increment first, loop BODY verbatim (`for v in self` over `&Vec` stays as it is)
+  Rfn    `Box<dyn Fn..>` fields (Verus has no `dyn Fn`): field type -> BoxedFilter<T> / BoxedFactory<T>, `Box::new(f)` -> `Boxed..::new(f)`,
+         `(self.f)(x)` -> `self.f.call(x)`; the panicking factory closure of Array::from_trame gets the closure contract `requires false`
+  Rvisit `visit` is verified as the method of a separate trait MessageVisit (Verus rejects the cycle trait Message -> DataType -> &Trame -> dyn Message);
+         bounds `T: Message` of the visit impls become `T: Message + MessageVisit`
+What is NEW relative to model.rs (side conditions wf()/rwf(), u64 bound of length(), clause E1) is documented at the trait in prelude/engine2_model.rs.
 """
 import os, re
 from vx.spec import *
@@ -18,7 +24,7 @@ VERIF = os.path.dirname(os.path.dirname(os.path.abspath(__file__)))
 
 
 # ------------------------------------------------------------------------------------------------------------------------------------
-# the copied part of prelude/model.rs must stay identical to the original (checked on every assembly: this module is imported by it)
+# the copied part of prelude/model.rs must stay identical to the original (checked on every assembly: see _CheckedUnit)
 def _norm(s):
     return " ".join(re.sub(r"//[^\n]*", "", s).split())
 
@@ -27,7 +33,7 @@ def _method_ensures(trait_text, name):
     m = re.search(r"\bfn %s\b.*?\bensures\b(.*?);\s*(?:\n\s*\n|\n\s*fn |\n\})" % name, trait_text, re.S)
     if not m:
         raise LostAnchor("engine2: cannot find the ensures of Message::%s" % name)
-    return m.group(1)
+    return re.sub(r"//[^\n]*", "", m.group(1))
 
 
 def check_copy():
@@ -56,6 +62,26 @@ def check_copy():
                 raise LostAnchor("engine2: clause of model.rs Message::%s missing from the engine2 trait: %s" % (name, cl))
 
 
+def check_io_copy():
+    """the method contracts of DynRead / ReadBytesExt / DynWrite / WriteBytesExt contain every clause of prelude/base.rs Read / Write"""
+    base = open(os.path.join(VERIF, "prelude", "base.rs")).read()
+    mine = open(os.path.join(VERIF, "prelude", "engine2_model.rs")).read()
+    def trait(text, header):
+        a = text.index(header)
+        return text[a:text.index("\n}\n", a) + 3]
+    pairs = [("pub trait Read: Sized {", ["pub trait DynRead {", "pub trait ReadBytesExt: DynRead {"], ["read_exact", "read_to_end", "read_u8", "read_u16", "read_u32"]),
+             ("pub trait Write: Sized {", ["pub trait DynWrite {", "pub trait WriteBytesExt: DynWrite {"], ["write_all", "write_u8", "write_u16", "write_u32"])]
+    for bh, mhs, names in pairs:
+        tb = trait(base, bh)
+        tm = "".join(trait(mine, h) for h in mhs)
+        for name in names:
+            e_base = [_norm(x) for x in _split_clauses(_method_ensures(tb, name))]
+            e_mine = [_norm(x) for x in _split_clauses(_method_ensures(tm, name))]
+            for cl in e_base:
+                if cl not in e_mine:
+                    raise LostAnchor("engine2: clause of base.rs %s missing from the object-safe stream traits: %s" % (name, cl))
+
+
 def _split_clauses(text):
     """split an ensures list at depth-0 commas"""
     out, depth, cur = [], 0, ""
@@ -75,7 +101,20 @@ def _split_clauses(text):
     return out
 
 
-check_copy()
+class _CheckedUnit(Unit):
+    """runs the two copy checks whenever the unit is ASSEMBLED (`preludes` is read by vx.assemble only): a divergence of prelude/model.rs or
+    prelude/base.rs from the copied text makes the unit report `lost-anchor` instead of silently verifying against a stale contract"""
+
+    @property
+    def preludes(self):
+        check_copy()
+        check_io_copy()
+        return self._preludes
+
+    @preludes.setter
+    def preludes(self, v):
+        self._preludes = v
+
 
 # ------------------------------------------------------------------------------------------------------------------------------------
 W_SIG = [(r"&mut dyn Write\b", "&mut dyn DynWrite")]
@@ -252,6 +291,41 @@ def M(ty_regex, name, **kw):
     A(Fn(DATA, name, impl=ty_regex, mod="data", dyn=False, **kw))
 
 
+
+# ====================================================================================================================================
+# Leaves (u8, U16, U32, Vec<u8>, Check<T>): verified against the generic trait in unit engine; verified here AGAIN against the object-safe
+# trait so that every `impl Message` of src/model/data.rs is proved for the trait the containers dispatch through (no impl is assumed):
+# this is what discharges the NEW clauses (wf/rwf frame, E1) for the elements a container can hold.  Lemmas and hints: those of unit engine.
+from specs.engine import CODEC_LEMMAS, VALUE_EQ_SPEC, PAYLOAD_SPEC, PAYLOAD_AXIOM, U8_READ, U16_READ, U32_READ, VEC_READ, U16_MORE, U32_MORE, CHECK_MORE
+A(Item(DATA, "enum", "Value", mod="data", sub=[(r"#\[derive\(Copy, Clone\)\]", "#[verifier::allow(autoderive_clone_without_spec)]\n#[derive(Copy, Clone)]")]))
+A(Item(DATA, "type", "U16", mod="data"))
+A(Item(DATA, "type", "U32", mod="data"))
+A(Item(DATA, "struct", "Check", mod="data"))
+A(Raw("    pub open spec fn val(&self) -> Type { match *self { Value::BE(e) => e, Value::LE(e) => e } }\n", mod="data", name="value_val", file=DATA, impl=r"^impl<Type: Copy \+ PartialEq> Value<Type>$"))
+A(Fn(DATA, "inner", impl=r"^impl<Type: Copy \+ PartialEq> Value<Type>$", mod="data", dyn=False, props=["C18"], ensures=["r == self.val()"]))
+A(CODEC_LEMMAS)
+A(VALUE_EQ_SPEC)
+A(Fn(DATA, "eq", impl=r"PartialEq for Value<Type>$", mod="data", props=["C18"]))
+A(PAYLOAD_SPEC)
+A(PAYLOAD_AXIOM)
+A(Fn(DATA, "new", impl=r"^impl<T> Check<T>$", mod="data", dyn=False, props=["C18"], ensures=["r.value == value"]))
+
+
+def leaf(ty_regex, label, mv, wf="true", rwf="true", extra_read=None, more=None):
+    A(impl_specs(ty_regex, label, mv, wf, rwf))
+    for name in ("write", "read", "length", "options", "visit"):
+        kw = dict((more or {}).get(name, {}))
+        if name == "read" and extra_read:
+            kw["ensures"] = extra_read
+        M(ty_regex, name, **kw)
+
+
+leaf(r"Message for u8$", "u8", "MV::U8(*self)", extra_read=U8_READ)
+leaf(r"Message for U16$", "U16", "match *self { Value::BE(v) => MV::U16(v, false), Value::LE(v) => MV::U16(v, true) }", extra_read=U16_READ, more=U16_MORE)
+leaf(r"Message for U32$", "U32", "match *self { Value::BE(v) => MV::U32(v, false), Value::LE(v) => MV::U32(v, true) }", extra_read=U32_READ, more=U32_MORE)
+leaf(r"Message for Vec<u8>$", "Vec", "MV::Bytes(self@)", extra_read=VEC_READ)
+leaf(r"Message for Check<T>$", "Check", "MV::Check(Box::new(self.value.mv()))", wf="self.value.wf()", rwf="self.value.rwf()", more=CHECK_MORE)
+
 # ====================================================================================================================================
 # Option<T> (leaf, verified against the generic trait in unit engine; Array::read goes through it, so it is verified here against the
 # object-safe trait too, with the two extra clauses Array::read needs)
@@ -359,13 +433,6 @@ M(COMP, "length", nloops=1, body_sub=[ITER],
             ser_fields_from(f, 0, Set::empty()).len() <= u64::MAX,
         decreases self.entries().len() - __i"""},
   hints=[(r"__i \+= 1;", 1, "let ghost j = __i as int - 1; let ghost s0 = filtering_key.s(); proof { assert(f[j] == (name@, value.mv())); assert(self.entries()[j].1.wf()); }", "atend")])
-def MS(ty_regex, name, **kw):
-    """temporary: contract assumed"""
-    if name == "write":
-        kw["sig_sub"] = W_SIG
-    if name == "read":
-        kw["sig_sub"] = R_SIG
-    A(Stub(DATA, name, impl=ty_regex, mod="data", dyn=False, why="not reached", **kw))
 M(COMP, "read", nloops=1,
   body_sub=[(r"for \(name, value\) in self\.into_iter\(\) \{",
              "let mut __i: usize = 0; while __i < self.len() { let (name, value) = self.get_index_mut(__i).unwrap(); __i += 1;"),
@@ -547,6 +614,10 @@ A(Fn(DATA, "from_trame", impl=ARRI, mod="data", dyn=False, props=["C18"],
 A(Fn(DATA, "inner", impl=ARRI, mod="data", dyn=False, props=["C18"],
      ensures=[("C18", "view", "self.mv() matches MV::Arr(s, p) && s == trame_view(r@)"),
               ("C18", "wf", "self.wf() ==> r.wf()")]))
+A(Fn(DATA, "as_ref", impl=r"AsRef<Trame> for Array<T>$", mod="data", dyn=False, props=["C18"],
+     impl_sub=[(r"^impl<T> AsRef", "impl<T: Message> AsRef")],
+     ensures=[("C18", "view", "self.mv() matches MV::Arr(s, p) && s == trame_view(r@)"),
+              ("C18", "wf", "self.wf() ==> r.wf()")]))
 ARR = r"Message for Array<T>$"
 A(impl_specs(ARR, "Array",
              "MV::Arr(trame_view(self.inner@), Box::new(arr_proto(self.factory)))",
@@ -577,5 +648,60 @@ M(ARR, "length")
 M(ARR, "options")
 M(ARR, "visit")
 
-UNIT = Unit("engine2", ["base.rs", "collections.rs", "engine2_model.rs"], items,
+
+# ====================================================================================================================================
+# non-vacuity: the side conditions wf()/rwf() are satisfiable and the contracts compose -- a PROVED exec function of this unit (not of /repo):
+# build a Trame [u8, U16::LE], serialize it into a Cursor (never fails: E1), read the bytes back into a fresh layout of the same shape
+A(Raw(r"""
+pub fn demo_roundtrip() -> (r: Vec<u8>)
+    ensures r@ == seq![7u8, 0x34u8, 0x12u8]
+{
+    let mut t: Trame = Vec::new();
+    t.push(box_dyn(Box::new(7u8)));
+    t.push(box_dyn(Box::new(U16::LE(0x1234))));
+    assert(t.wf() && t.rwf());
+    let ghost tv = trame_view(t@);
+    assert(tv =~= seq![MV::U8(7), MV::U16(0x1234, true)]);
+    let mut stream = Cursor::new(Vec::new());
+    let w = t.write(dyn_writer(&mut stream));
+    proof {
+        reveal_with_fuel(ser_seq_from, 4);
+        assert(0x1234u16 & 0xff == 0x34 && (0x1234u16 >> 8) & 0xff == 0x12) by(bit_vector);
+        assert(ser(tv[0]) =~= seq![7u8]);
+        assert(ser(tv[1]) =~= seq![0x34u8, 0x12u8]);
+        assert(ser_seq_from(tv, 2) =~= Seq::<u8>::empty());
+        assert(ser_seq_from(tv, 1) =~= seq![0x34u8, 0x12u8]);
+        assert(ser_seq_from(tv, 0) =~= seq![7u8] + seq![0x34u8, 0x12u8]);
+        assert(ser(t.mv()) =~= seq![7u8, 0x34u8, 0x12u8]);
+        assert(w is Ok);
+    }
+    let bytes = stream.into_inner();
+    assert(bytes@ =~= seq![7u8, 0x34u8, 0x12u8]);
+    let mut t2: Trame = Vec::new();
+    t2.push(box_dyn(Box::new(0u8)));
+    t2.push(box_dyn(Box::new(U16::LE(0))));
+    let ghost tv2 = trame_view(t2@);
+    assert(tv2 =~= seq![MV::U8(0), MV::U16(0, true)]);
+    assert(is_static(t2.mv())) by { assert forall|i: int| 0 <= i < tv2.len() implies is_static(#[trigger] tv2[i]) by { if i == 0 {} else { assert(i == 1); } } }
+    let ghost m2 = t2.mv();
+    let mut back = Cursor::new(bytes.clone());
+    let rr = t2.read(dyn_reader(&mut back));
+    proof {
+        if rr is Ok {
+            reveal_with_fuel(ser_seq_from, 4);
+            assert(0u16 & 0xff == 0 && (0u16 >> 8) & 0xff == 0) by(bit_vector);
+            assert(ser(tv2[0]) =~= seq![0u8]);
+            assert(ser(tv2[1]) =~= seq![0u8, 0u8]);
+            assert(ser_seq_from(tv2, 2) =~= Seq::<u8>::empty());
+            assert(ser_seq_from(tv2, 1) =~= seq![0u8, 0u8]);
+            assert(ser_seq_from(tv2, 0) =~= seq![0u8] + seq![0u8, 0u8]);
+            assert(ser(m2) =~= seq![0u8, 0u8, 0u8]);
+            assert(ser(t2.mv()) =~= seq![7u8, 0x34u8, 0x12u8]);
+        }
+    }
+    bytes
+}
+""", mod="data", name="demo_roundtrip"))
+
+UNIT = _CheckedUnit("engine2", ["base.rs", "collections.rs", "engine2_model.rs"], items, uses={"data": ["use vstd::std_specs::cmp::PartialEqSpec;"]},
             doc="container implementations of src/model/data.rs against the engine contract of prelude/model.rs")
